@@ -61,6 +61,8 @@ def gen_fn(rng):
 def solve_kw(rng):
     kw = {"vtol": 1e-10, "itol": 1e-10} if rng.random() < 0.8 else {}
     kw["ta"] = float("%.3g" % rng.uniform(-60, 150))
+    if rng.random() < 0.12:
+        kw["ta"] = rng.choice([0.0, 0, -0.0, 25.0, 25])      # an explicit ambient of zero is an ambient like any other
     return kw
 
 
